@@ -1142,7 +1142,7 @@ def c05(W, replay=None):
     if not replay:
         design_mc(W, "c05-design", ["TokensOnlyUnderIssued"])
         fam = family(W, "C05")
-        scen = fam + c05_fault_sweep(fam) + envelope_late(W, fam) + replica_family(W) + env_std(W) + debug_family(W) + family(W, "C04", "quick") + attacker_family(W, 400 if W.tier == "thorough" else 80) + decoy_family(W) + parallel_family(W, 200 if W.tier == "thorough" else 20)
+        scen = fam + c05_fault_sweep(fam) + envelope_late(W, fam if W.tier == "quick" else family(W, "C05", "quick")) + replica_family(W) + env_std(W) + debug_family(W) + family(W, "C04", "quick") + attacker_family(W, 400 if W.tier == "thorough" else 80) + decoy_family(W) + parallel_family(W, 200 if W.tier == "thorough" else 20)
         if W.tier == "thorough":
             scen += random_histories(W, 500)
     return sys_pipeline("C05", W, scen, None, ASSUME_SYS, replay=replay)
@@ -1158,7 +1158,7 @@ def c11(W, replay=None):
                     Checks="{1,2,3,4,5}", MaxSid=4, MaxTok=5, TokLife=1, Kinds='{"app"}')
         ms = sample(W, [m for m in ms if any(s.get("ans") == "badToken" for s in m["steps"])], 1000 if W.tier == "thorough" else 80)
         scen += [conv(m, "c11/race/%d" % i, 1, store=("memory", "redis")[i % 2], probes=finish_all(m) + [PROBE_APP]) for i, m in enumerate(ms)]
-        scen += replica_family(W) + env_std(W) + debug_family(W) + envelope_late(W, family(W, "C11"))
+        scen += replica_family(W) + env_std(W) + debug_family(W) + envelope_late(W, family(W, "C11", "quick"))
         scen += cancel_family(W, [x for x in scen if x["id"].startswith(("c11/rotate/n1", "c11/noRotate/n1", "c11/omitId/n1", "c11/badSig/n1"))])
         # every single fault position on the refresh path (store calls, provider, key lookup; Redis: single commands)
         ms = export(W, "c11-faults", Prepared='"expired"', Target=1, MaxApps=1, MaxFaults=2 if W.tier == "thorough" else 1, Checks="{1,2,3,4}", MaxSid=3, MaxTok=4)
